@@ -24,7 +24,8 @@ Record ostep := mkOS { os_cur : option opos; os_exit : option oexit }.
     keyed by index, PositionManager keyed by name, InstrumentState) was serialised to JSON and
     restored from it before continuing; [rt_ok] = every such round trip gave back a value equal
     (Rust ==) to the original. The model treats persist/restore as a no-op. *)
-Record meta := mkMeta { m_kind : N; m_size : Q; m_restores : list N; m_rt_ok : bool }.
+Record meta := mkMeta { m_kind : N; m_size : Q; m_restores : list N; m_rt_ok : bool;
+                       m_rejects : list N; m_rej_ok : bool }.
 
 Inductive case :=
 | CFills (fills : list ofill) (obs : list ostep) (inst_agrees : bool) (ts : option (N * Q))
@@ -46,7 +47,7 @@ Definition corr_b (c : case) : bool :=
   match c with
   | CFills fs os agrees ts ik =>
       let t := tols_of fs in
-      corr_run t None fs os && (agrees && m_rt_ok ik) &&
+      corr_run t None fs os && (agrees && m_rt_ok ik && m_rej_ok ik) &&
       match ts with
       | None => true
       | Some (cnt, pnl) =>
@@ -171,7 +172,7 @@ Definition prop_b (c : case) : bool :=
   | CFills fs os agrees ts ik =>
       let t := tols_of fs in
       let r := prop_run t acc0 fs os in
-      fst r && (agrees && m_rt_ok ik) &&
+      fst r && (agrees && m_rt_ok ik && m_rej_ok ik) &&
       match ts with
       | None => true
       | Some (cnt, pnl) =>
@@ -219,7 +220,7 @@ Definition model_case (c : case) : case :=
   | CFills fs _ _ _ ik =>
       let xs := snd (prun (map fill_of fs)) in
       CFills fs (model_obs None fs) true (Some (N.of_nat (length xs), this (sum_x_pnl xs)))
-             (mkMeta (m_kind ik) (m_size ik) (m_restores ik) true)
+             (mkMeta (m_kind ik) (m_size ik) (m_restores ik) true (m_rejects ik) true)
   end.
 Definition oracle_accepts_model (c : case) : bool :=
   negb (wf_case c) || (prop_b (model_case c) && corr_b (model_case c)).
